@@ -230,6 +230,16 @@ def run(ck: Check):
             return g(torch.ones(1, 4))
         got = outcome(_late)
         record("groupsum-tau", {"tau": repr(tau), "bad": "tau", "given": "attribute"}, okt, got)
+    # ---------------- thermometer input layout: (B, H, W) or (B, 1, H, W); anything else would be broadcast against the thresholds
+    from torchlogix.layers import LearnableThermometerThresholding as _LTs
+    for frozen in (False, True):
+        tl = _LTs([1.0, 2.0, 3.0])
+        if frozen:
+            tl.freeze_thresholds()
+        for bad, shp in (("ok-3d", (2, 4, 5)), ("ok-4d-one-channel", (2, 1, 4, 5)), ("channels-equal-thresholds", (2, 3, 4, 5)), ("two-channels", (2, 2, 4, 5)),
+                         ("features-only", (5, 7)), ("five-axes", (2, 1, 1, 4, 5)), ("vector", (7,))):
+            got = outcome(lambda: tl(torch.rand(*shp) * 4))
+            record("thermometer-forward", {"x_shape": list(shp), "frozen": frozen, "bad": bad}, bad.startswith("ok"), got)
     # ---------------- conv forward shapes
     for _ in range(reps):
         for dims in (2, 3):
